@@ -35,21 +35,34 @@ func (h *H) resync(from, to *Node, plan func(i int) Plan) bool {
 	to.Proxy.KillAll()
 	to.Proxy.SetPlan(plan)
 	ref := RemoteRecv(to)
-	ok := false
-	for i := 0; i < 100 && !ok; i++ {
+	tell := func(wait time.Duration) bool {
 		syncSeq++
 		s := syncSeq
+		_, _, _, _, _, dl0, _, _ := from.Ev.snapshotCounts()
 		from.Sys.Tell(ref, &XMsg{Kind: KSync, Sender: 0, Seq: s})
-		ok = waitUntil(150*time.Millisecond, func() bool {
-			for _, g := range to.Rec.Snapshot(0) {
-				if g.Kind == KSync && g.Seq == s {
-					return true
-				}
+		got := false
+		waitUntil(wait, func() bool {
+			if hasSync(to, s) {
+				got = true
+				return true
 			}
-			return false
+			// the Tell was given up (dead letter): no point in waiting for it
+			_, _, _, _, _, dl, _, _ := from.Ev.snapshotCounts()
+			return dl > dl0
 		})
+		return got
 	}
-	return ok
+	deadline := time.Now().Add(15 * time.Second)
+	for time.Now().Before(deadline) {
+		if !tell(60 * time.Millisecond) {
+			continue
+		}
+		// a second sync on the same connection: when it has arrived, every earlier sync that is going to arrive has
+		if tell(2 * time.Second) {
+			return true
+		}
+	}
+	return false
 }
 
 func tGot(g Got) lib.T {
@@ -73,7 +86,7 @@ func (h *H) launch(src, dst *Node, cfg roundCfg, base uint32, r *lib.Rand) ([]ex
 		if err != nil {
 			return nil, nil, 0, err
 		}
-		b := &Burst{To: to, Gap: cfg.gap, Done: make(chan struct{}), AskTimeout: 20 * time.Second}
+		b := &Burst{To: to, Gap: cfg.gap, Done: make(chan struct{}), AskTimeout: h.roundLimit() - 5*time.Second}
 		for i := 1; i <= cfg.burst; i++ {
 			sz := cfg.sizes[r.Intn(len(cfg.sizes))]
 			var data []byte
@@ -145,6 +158,15 @@ func (h *H) checkDelivery(tag string, dst *Node, from int, exps []expect, c lib.
 	}
 }
 
+// roundLimit: the one bounded wait of a round (a healthy quick round takes well under 3 s, the largest thorough
+// round about 20 s on an idle machine)
+func (h *H) roundLimit() time.Duration {
+	if h.tier == "thorough" {
+		return 240 * time.Second
+	}
+	return 25 * time.Second
+}
+
 type marks struct{ rec, df, rc, rf, dead, conns int }
 
 func mark(n *Node) marks {
@@ -201,7 +223,7 @@ func (h *H) round(A, B *Node, cfg roundCfg, seed uint64) {
 	}
 	total := cfg.senders * cfg.burst
 	// one bounded wait for the whole round (generous: a healthy round takes well under 3 s)
-	limit := time.Now().Add(25 * time.Second)
+	limit := time.Now().Add(h.roundLimit())
 	left := func() time.Duration {
 		if d := time.Until(limit); d > 0 {
 			return d
@@ -261,7 +283,11 @@ func (h *H) round(A, B *Node, cfg roundCfg, seed uint64) {
 		// replies to A's Asks travel B->A on the same connection as B's bursts; all of it is in A's record
 		h.emitConnCase("burst-rev:"+modeNames[cfg.mode], A, connA, len(recA0), mA, true)
 	}
-	h.o.Stats["round:"+cfg.name]++
+	if strings.HasPrefix(cfg.name, "mini-") {
+		h.o.Stats["round:mini"]++
+	} else {
+		h.o.Stats["round:"+cfg.name]++
+	}
 	h.o.Stats["messages"] += total
 	if cfg.reverse {
 		h.o.Stats["messages"] += total
@@ -414,9 +440,30 @@ func (h *H) runFrame() {
 			roundCfg{name: "one-byte-1x3-300k", mode: ModeOne, senders: 1, burst: 3, sizes: []int{300000}, askEvery: 0, reverse: false},
 		)
 		for i := 0; i < 12; i++ {
-			rounds = append(rounds, roundCfg{name: fmt.Sprintf("random-mix-%d", i), mode: int(h.r.Intn(nModes)), randMax: 1 + h.r.Intn(5000), senders: 1 + h.r.Intn(6),
-				burst: 1 + h.r.Intn(1500), sizes: mid, askEvery: 1 + h.r.Intn(20), reverse: h.r.Bool()})
+			rc := roundCfg{name: fmt.Sprintf("random-mix-%d", i), mode: int(h.r.Intn(nModes)), randMax: 1 + h.r.Intn(5000), senders: 1 + h.r.Intn(6),
+				burst: 1 + h.r.Intn(1500), sizes: mid, askEvery: 1 + h.r.Intn(20), reverse: h.r.Bool()}
+			if rc.mode == ModeOne || (rc.mode == ModeRand && rc.randMax < 16) {
+				// byte-sized writes: keep the volume at a few hundred KiB
+				rc.sizes = small
+				if rc.burst > 600 {
+					rc.burst = 600
+				}
+			}
+			rounds = append(rounds, rc)
 		}
+	}
+	// many small rounds: each one is a model case per direction (whole record below the size cap)
+	nmini := 24
+	if thorough {
+		nmini = 200
+	}
+	for i := 0; i < nmini; i++ {
+		rc := roundCfg{name: fmt.Sprintf("mini-%d", i), mode: int(h.r.Intn(nModes)), randMax: 1 + h.r.Intn(40), senders: 1 + h.r.Intn(3),
+			burst: 1 + h.r.Intn(50), sizes: small, askEvery: 1 + h.r.Intn(6), reverse: h.r.Intn(3) > 0}
+		if h.r.Intn(4) == 0 && rc.mode != ModeOne {
+			rc.sizes = mid
+		}
+		rounds = append(rounds, rc)
 	}
 	for i, rc := range rounds {
 		if h.abort {
@@ -435,7 +482,7 @@ func (h *H) runFrame() {
 		names = append(names, rc.name)
 	}
 	sort.Strings(names)
-	h.o.Info["rounds"] = names
+	h.o.Info["rounds"] = len(names)
 	h.o.Info["chunking_modes"] = modeNames
 }
 
